@@ -14,7 +14,7 @@ import ast
 
 from ..index import AnchorMissing, Unrecognised
 from ..cfg import CFG
-from ..astutil import linear_body, u, body_walk, local_env, func_calls, walk_local, single_return_expr
+from ..astutil import linear_body, u, body_walk, local_env, func_calls, walk_local, single_return_expr, inline_locals
 from ..pend import edge_facts, is_none_fact, yields_value, is_raise, facts
 from .. import sym
 
@@ -418,6 +418,102 @@ def _group_join(ctx):
     from .c11 import r5_group_join
     r5_group_join(ctx)                     # pieces of one contig arriving in several chunks are all concatenated
 
+def _len_threshold(test, var):
+    """(op, c) of a test `len(var) op c` (normalised to len on the left), or None."""
+    if not (isinstance(test, ast.Compare) and len(test.ops) == 1):
+        return None
+    l, r, op = test.left, test.comparators[0], type(test.ops[0])
+    flip = {ast.Lt: ast.Gt, ast.Gt: ast.Lt, ast.LtE: ast.GtE, ast.GtE: ast.LtE, ast.Eq: ast.Eq, ast.NotEq: ast.NotEq}
+    if isinstance(r, ast.Call) and u(r.func) == "len":
+        l, r, op = r, l, flip.get(op)
+    if not (isinstance(l, ast.Call) and u(l.func) == "len" and l.args and u(l.args[0]) == var and isinstance(r, ast.Constant) and isinstance(r.value, int) and op):
+        return None
+    return op, r.value
+
+
+def _nonempty_only(test, var):
+    """True if the test holds for EVERY length >= 1 (so it can only single out the empty case), False if some length >= 1 fails it, None if unknown."""
+    t = _len_threshold(test, var)
+    if t is None:
+        return None
+    op, c = t
+    if op is ast.Gt:
+        return c <= 0
+    if op is ast.GtE:
+        return c <= 1
+    if op is ast.NotEq:
+        return c <= 0
+    return False
+
+
+def r9_chunk_partition(ctx):
+    """(a) groupby cuts a chunk into groups that together are the whole chunk: every return is a generator of (key at the group's first row, rows of the group)
+    whose groups start at row 0 and end at the last row; (b) a whole table handed to a MultiStream is wrapped as a one-chunk stream unconditionally
+    (at most the EMPTY table may be dropped)."""
+    ix = ctx.index
+    f = ix.func("bionumpy.streams.groupby_func", "groupby")
+    data = f.params[0]
+    env = local_env(f.node)
+    rets = [r for r in body_walk(f.node) if isinstance(r, ast.Return)]
+    n = 0
+    for r in rets:
+        v = r.value
+        if not (isinstance(v, ast.Call) and u(v.func) == "grouped_stream" and v.args and isinstance(v.args[0], ast.GeneratorExp)):
+            raise Unrecognised(f"{f.where}: groupby returns `{u(v)[:80]}`")
+        ge = v.args[0]
+        n += 1
+        if not (isinstance(ge.elt, ast.Tuple) and len(ge.elt.elts) == 2 and len(ge.generators) == 1 and not ge.generators[0].ifs):
+            raise Unrecognised(f"{f.where}: group generator has an unknown form: {u(ge)[:80]}")
+        kexp, rows = ge.elt.elts
+        dom = ge.generators[0].iter
+        tgt = ge.generators[0].target
+        if isinstance(rows, ast.Subscript) and u(rows.value) == data and isinstance(rows.slice, ast.Slice):
+            lo, hi = rows.slice.lower, rows.slice.upper
+            names = [u(e) for e in (tgt.elts if isinstance(tgt, ast.Tuple) else [tgt])]
+            key_ok = isinstance(kexp, ast.Call) and len(kexp.args) == 1 and isinstance(kexp.args[0], ast.Subscript) and lo is not None and u(kexp.args[0].slice) == u(lo)
+            ctx.ob(f.where, "a group is labelled with the key of its own first row", key_ok, u(kexp), key="C12-R9|group-key")
+            if hi is None:
+                cover = isinstance(dom, (ast.List, ast.Tuple)) and [u(e) for e in dom.elts] == ["0"] and names == [u(lo)]
+            else:
+                want = sym.canon(sym.parse_expr(f"zip(np.append(np.insert(get_changes(keys), 0, 0), len({data}))[:-1], np.append(np.insert(get_changes(keys), 0, 0), len({data}))[1:])"))
+                envc = {k: v for k, v in env.items() if k != "keys"}
+                chs = [x for x in linear_body(f.node) if isinstance(x, ast.Assign) and u(x.targets[0]) == "changes"]
+                e2 = {}
+                for x in chs:
+                    e2["changes"] = inline_locals(x.value, e2)
+                cover = sym.canon(inline_locals(dom, e2)) == want and names == [u(lo), u(hi)]
+            ctx.ob(f.where, "the groups of a chunk start at row 0, follow each other without gap, and end at the chunk's last row", cover, u(dom)[:100], key="C12-R9|cover")
+        elif u(rows) == data:
+            # the whole chunk as ONE group: right only if exactly one group comes out whenever the chunk has a row
+            one = u(dom) in ("keys[:1]", "keys[0:1]", "[keys[0]]", "(keys[0],)")
+            none_ = isinstance(dom, ast.Subscript) and isinstance(dom.slice, ast.Slice) and dom.slice.lower is not None and u(dom.slice.lower) not in ("0",)
+            if not one and not none_:
+                raise Unrecognised(f"{f.where}: whole-chunk group over `{u(dom)}`")
+            ctx.ob(f.where, "a chunk returned as one group yields exactly one group whenever it has a row (a one-row chunk is a group, not nothing)", one, u(ge)[:100],
+                   key="C12-R9|single-group")
+        else:
+            raise Unrecognised(f"{f.where}: group rows `{u(rows)}`")
+    ctx.floor("returns of groupby", n, 2)
+    m = ix.func("bionumpy.streams.multistream", "MultiStream.__init__")
+    envm = local_env(m.node)
+    wraps = [c for c in func_calls(m.node) if u(c.func) == "NpDataclassStream"]
+    ctx.floor("table-to-stream wraps in MultiStream.__init__", len(wraps), 1)
+    for c in wraps:
+        a = inline_locals(c.args[0], {k: v for k, v in envm.items() if k not in ("value",)})
+        if isinstance(a, ast.List) and len(a.elts) == 1:
+            ok, var = True, u(a.elts[0])
+        elif isinstance(a, ast.IfExp) and isinstance(a.body, ast.List) and len(a.body.elts) == 1 and isinstance(a.orelse, ast.List) and not a.orelse.elts:
+            var = u(a.body.elts[0])
+            ne = _nonempty_only(a.test, var)
+            if ne is None:
+                raise Unrecognised(f"{m.where}: a table is wrapped as a stream under `{u(a.test)}`")
+            ok = ne
+        else:
+            raise Unrecognised(f"{m.where}: a table is wrapped as `{u(a)[:80]}`")
+        ctx.ob(m.where, "a whole table given to a MultiStream becomes a one-chunk stream (at most the empty table is dropped: a one-row table is data)", ok, u(a)[:100],
+               key="C12-R9|table-wrap")
+
+
 RULES = [
     ("C12-R1", r1_pending_group),
     ("C12-R2", r2_every_contig_gets_a_buffer),
@@ -429,4 +525,5 @@ RULES = [
     ("C12-T1", _through_time),
     ("C12-T2", _small_edits),
     ("C12-R8", _group_join),
+    ("C12-R9", r9_chunk_partition),
 ]
